@@ -232,6 +232,24 @@ func c18Verify(c C18Case, base string, committed, inflight map[string][]byte, wh
 			return fmt.Errorf("%s: committed key %s reads %d bytes, want the %d committed", what, val.Txt(k), len(got), len(want))
 		}
 	}
+	// a reader whose context ends while it is reading gets an error or the rest of the block, never a clean end
+	// of stream in the middle of it
+	for k, want := range committed {
+		cctx, cancel := context.WithCancel(ctx)
+		r, err := fs.GetStream(cctx, k)
+		if err != nil {
+			cancel()
+			return fmt.Errorf("%s: GetStream of committed key %s: %v", what, val.Txt(k), err)
+		}
+		head := make([]byte, len(want)/2)
+		_, herr := io.ReadFull(r, head)
+		cancel()
+		tail, terr := io.ReadAll(r)
+		r.Close()
+		if herr == nil && terr == nil && !bytes.Equal(append(head, tail...), want) {
+			return fmt.Errorf("%s: a reader of committed key %s whose context was cancelled after %d bytes reached a clean end of stream after %d of %d bytes", what, val.Txt(k), len(head), len(head)+len(tail), len(want))
+		}
+	}
 	for k, want := range inflight {
 		if _, ok := committed[k]; ok {
 			continue
